@@ -21,6 +21,8 @@ LEVEL_NOTE = ('Trusted: Lean kernel, the AST translator (semantics validated dif
 TECHNIQUE = 'Lean 4 proof: reflective decide over regenerated decoder IR + footprint/substitution lemmas; differential correspondence'
 
 CROSS = {('BSC_setsockopt', 2): {1}, ('BSC_getsockopt', 2): {1}, ('BSC_shm_open', 2): {1}, ('BSC_sem_open', 2): {1}}
+NARROW = {('MSC_semaphore_timedwait_trap', 1)}       # Props/C09.narrowed: the trap's nanoseconds are an unsigned int
+BIG = [0x180000000, 0xffffffff00000000, 1 << 63, 0x7fffffff00000000, 0x100002000]
 CAND = [7, 1, 2, 3, 4, 0, 5, 6, 8, 9, 10, 11, 12, 16, 17, 0x40, 0x100]
 BASE = [0x1a2b, 0x3c4d, 0x5e6f, 0x7081]
 
@@ -110,6 +112,23 @@ def position_oracle(name):
             if v not in allowed_values(base[k]):
                 return ('decoder:%s:position-%d-not-word-%d' % (name, k, k),
                         'parameter %d shows %s, START words are %s' % (k, p, base), {'start': base, 'text': t0})
+            # ... of the WHOLE word: words beyond 32 bits are shown in full (decimal, hexadecimal or signed 64-bit)
+            if (name, k) in NARROW:
+                continue
+            for big in BIG:
+                s2 = list(base)
+                s2[k] = big + base[k]
+                t2 = render(name, s2, end, lookups)
+                sp2 = D.split_call(t2) if t2 is not None else None
+                if sp2 is None or len(sp2[1]) <= k:
+                    continue
+                p2 = sp2[1][k]
+                if not (re.fullmatch(r'-?\d+', p2) or re.fullmatch(r'-?0x[0-9a-f]+', p2)):
+                    continue
+                if int(p2, 0) not in (s2[k], s2[k] - (1 << 64)):
+                    return ('decoder:%s:position-%d-narrowed' % (name, k),
+                            'parameter %d shows %s for START word %d (%#x): not the argument in decimal, signed or '
+                            'hexadecimal form' % (k, p2, s2[k], s2[k]), {'start': s2, 'text': t2})
     return None
 
 
